@@ -40,6 +40,18 @@ MUTATIONS = [
     dict(id="M05", prop="C01", file="nutree/tree.py", what="_unregister() keeps the owner/parent pointers of a removed leaf",
          old="        node._tree = None  # type: ignore\n        node._parent = None  # type: ignore\n        if clear:",
          new="        if node._children:\n            node._tree = None  # type: ignore\n            node._parent = None  # type: ignore\n        if clear:"),
+    dict(id="M17", prop="C01", file="nutree/node.py", what="remove_children() does not unregister nodes three or more levels below",
+         old="        for n in self._iter_post():\n            _unregister(n)\n        self._children = None",
+         new="        for n in self._iter_post():\n            if n._parent is self or n._parent._parent is self:\n                _unregister(n)\n        self._children = None"),
+    dict(id="M18", prop="C01", file="nutree/node.py", what="remove(keep_children=True) does not re-parent the last of three or more children",
+         old="            for c in children:\n                c._parent = self._parent\n            pc[idx : idx + 1] = children",
+         new="            for c in children[: len(children) - 1 if len(children) > 2 else len(children)]:\n                c._parent = self._parent\n            pc[idx : idx + 1] = children"),
+    dict(id="M19", prop="C01", file="nutree/node.py", what="remove() deletes from the parent's list by equality again (D02 regression)",
+         old="            self.remove_children()\n            del pc[idx]  # type: ignore",
+         new="            self.remove_children()\n            pc.remove(self)  # type: ignore"),
+    dict(id="M20", prop="C01", file="nutree/node.py", what="remove(with_clones=True) removes a clone again that already went as a descendant of another clone (D03 regression)",
+         old="                if c._tree is None:\n                    continue  # already removed as descendant of another clone",
+         new="                if False:\n                    continue  # already removed as descendant of another clone"),
     # ---- C02 ----
     dict(id="M06", prop="C02", file="nutree/node.py",
          what="set_data(with_clones=False) leaves the node in its old clone group when it is the LAST member of the group",
